@@ -95,6 +95,7 @@ def worker_main(prop, shard_path, out_path):
         "exhaustive_done": 0,
         "exhaustive_complete": True,
         "random_done": 0,
+        "key_counts": {},
     }
 
     def account(case, res, origin):
@@ -105,14 +106,14 @@ def worker_main(prop, shard_path, out_path):
         for k, v in res.get("counters", {}).items():
             out["counters"][k] = out["counters"].get(k, 0) + v
         for v in res["violations"]:
-            if len(out["violations"]) < 200:
+            # witnesses are capped PER KEY so that a flood of one (known)
+            # key can never hide another key
+            n = out["key_counts"].get(v["key"], 0)
+            out["key_counts"][v["key"]] = n + 1
+            if n < 8:
                 out["violations"].append(
                     {"key": v["key"], "msg": v.get("msg", "")[:4000],
                      "case": case, "origin": origin}
-                )
-            else:
-                out["counters"]["violations_dropped"] = (
-                    out["counters"].get("violations_dropped", 0) + 1
                 )
         if res.get("inconclusive"):
             if len(out["inconclusive"]) < 20:
@@ -249,6 +250,7 @@ def main(argv=None):
 
     watchdog = seconds * 3 + 120
     merged = {
+        "key_counts": {},
         "evaluations": 0, "sigs": {}, "violations": [], "inconclusive": [],
         "counters": {}, "samples": [], "exhaustive_total": 0,
         "exhaustive_done": 0, "exhaustive_complete": True, "random_done": 0,
@@ -269,6 +271,8 @@ def main(argv=None):
             for k, v in o["sigs"].items():
                 merged["sigs"][k] = merged["sigs"].get(k, 0) + v
             merged["violations"] += o["violations"]
+            for k, v in o.get("key_counts", {}).items():
+                merged["key_counts"][k] = merged["key_counts"].get(k, 0) + v
             merged["inconclusive"] += o["inconclusive"]
             for k, v in o["counters"].items():
                 merged["counters"][k] = merged["counters"].get(k, 0) + v
@@ -306,7 +310,7 @@ def main(argv=None):
         e = known_keys[k]
         lines.append(
             f"KNOWN-FINDING: property={prop} {e['mechanism']} "
-            f"(key={k}, seen {len(explained[k])}x)"
+            f"(key={k}, seen {merged['key_counts'].get(k, 0)}x)"
         )
     replay_paths = []
     if unexplained:
@@ -321,10 +325,12 @@ def main(argv=None):
             common.jdump({"property": prop, "key": k, "msg": v["msg"],
                           "case": v["case"], "origin": v["origin"],
                           "tier": tier, "seed": args.seed,
-                          "count": len(vs)}, path)
+                          "count": merged["key_counts"].get(k, len(vs))},
+                         path)
             replay_paths.append(path)
             lines.append(f"VIOLATION property={prop} replay={path}")
-            lines.append(f"  key={k} count={len(vs)} :: "
+            lines.append(f"  key={k} count="
+                         f"{merged['key_counts'].get(k, len(vs))} :: "
                          + v["msg"].strip().splitlines()[-1][:300]
                          if v["msg"].strip() else f"  key={k}")
 
@@ -377,9 +383,11 @@ def main(argv=None):
         "monitor_counters": dict(sorted(merged["counters"].items())),
         "top_signatures": dict(sorted(merged["sigs"].items(),
                                       key=lambda kv: -kv[1])[:25]),
-        "known_findings_seen": {k: len(v) for k, v in explained.items()},
-        "unexplained_violation_keys": {k: len(v)
-                                       for k, v in unexplained.items()},
+        "known_findings_seen": {k: merged["key_counts"].get(k, len(v))
+                                for k, v in explained.items()},
+        "unexplained_violation_keys": {
+            k: merged["key_counts"].get(k, len(v))
+            for k, v in unexplained.items()},
         "inconclusive_reasons": inconclusive_reasons,
         "verdict": {0: "held-on-observed", 1: "violated",
                     2: "inconclusive"}[rc],
@@ -393,7 +401,8 @@ def main(argv=None):
         "coverage": coverage,
         "assumptions": list(getattr(mod, "ASSUMPTIONS", [])),
         "wall_s": round(wall, 2),
-        "violations": sum(len(v) for v in unexplained.values()),
+        "violations": sum(merged["key_counts"].get(k, len(v))
+                          for k, v in unexplained.items()),
     }
     common.jdump(evidence, os.path.join(common.EVIDENCE, f"{prop}.json"))
 
@@ -402,7 +411,7 @@ def main(argv=None):
     print(
         f"{prop} tier={tier} seed={args.seed} evaluations="
         f"{merged['evaluations']} distinct_nontrivial={distinct} "
-        f"known={sum(len(v) for v in explained.values())} "
+        f"known={sum(merged['key_counts'].get(k, len(v)) for k, v in explained.items())} "
         f"violations={evidence['violations']} wall={wall:.1f}s "
         f"verdict={coverage['verdict']}"
     )
